@@ -8,8 +8,8 @@ reference is evaluated stably in float64 / exact `fractions.Fraction` arithmetic
   Q_laplace(Phi x) = log_ndtr(x) + log 2  (x<0),  -(log_ndtr(-x) + log 2)  (x>0)       (Props/C30.lean: laplaceRe_eq)
   Q_uniform(Phi x) = a + (b-a) ndtr(x),   Q_normal = mean + std x (exact rational arithmetic)
 
-K = 512 for all checks: the measured error of the unchanged code is <= 3.3 units everywhere (quick seeds 0..3 and thorough
-seeds 0,1; STATS below is printed into the evidence), i.e. the margin to the observed noise is >= 150x, while a loss of
+K = 512 for all checks: the measured error of the unchanged code is <= 4.0 units everywhere (quick seeds 0..3 and thorough
+seeds 0,1; STATS below is printed into the evidence), i.e. the margin to the observed noise is >= 128x, while a loss of
 precision that is "orders of magnitude worse than conditioning" (log(1+x) instead of log1p at std/mean = 1e-6: 1e11 units)
 is far outside.
 
@@ -396,6 +396,64 @@ def oracle_extreme(case):
             bad = _worst(fam, keys[i] + "|" + keys[j], par, x, "pair", err, unit)
             if bad:
                 return bad
+    return _dense_monotone(case)
+
+
+DENSE_N = 2048
+DENSE_IMPLS = {"uniform": ("cl.op", "re.func.f64"), "normal": ("cl.vector", "re.func.f64"),
+               "lognormal": ("cl.vector", "re.func.f64"), "laplace": ("cl.op",)}
+
+
+def dense_grid(fam, par, x):
+    """near-degenerate parameters (ratio <= 1e-5): 2048 equidistant points starting at the middle point of the case, spaced so
+    that the outputs sweep ~700 ulps of the location -> consecutive outputs differ by about a third of an ulp and every
+    rounding decision of the implementation is exercised; None if the parameters are not near-degenerate"""
+    x0 = float(x[len(x) // 2])
+    if fam == "uniform":
+        loc, slope = abs(par["a"]), (par["b"] - par["a"]) * float(_phi(x0))
+    elif fam in ("normal", "lognormal"):
+        loc, slope = abs(par["mean"]), par["std"]
+    elif fam == "laplace" and par.get("loc"):
+        loc, slope = abs(par["loc"]), 2 * par["scale"] * float(_phi(x0))
+    else:
+        return None
+    if not (loc > 0 and slope > 0 and slope <= 1e-5 * loc):
+        return None
+    delta = 700 * EPS64 * loc / slope
+    if not delta < 0.5:
+        return None
+    return x0 + np.linspace(0.0, delta, DENSE_N)
+
+
+def _dense_monotone(case):
+    """monotone, on a dense sorted grid in float64 (exact order). Measured on the unchanged code: 0 violations in 750 random
+    configurations per implementation, except the JAX log-normal (7/600: XLA's float64 `exp` is not monotone at the ulp level,
+    NumPy's is) which therefore gets a 2-ulp slack"""
+    fam, par = case["fam"], case["par"]
+    xd = dense_grid(fam, par, case["x"]) if fam in DENSE_IMPLS and len(case.get("x", [])) > 2 else None
+    if xd is None:
+        return None
+    for impl in case["impls"]:
+        if impl not in DENSE_IMPLS[fam]:
+            continue
+
+        @I.guard
+        def run():
+            if impl.startswith("re."):
+                return _re_eval(fam, "func", "f64", par, xd)
+            return _cl_eval(fam, impl, {k: v for k, v in par.items()}, xd)
+        res = run()
+        if I.is_err(res):
+            return (f"extreme {fam}/{impl} {par}: dense grid rejected with {res['error']}", dict(fam=fam, impl=impl, kind="extreme-error"))
+        y = res["y"]
+        dy = np.diff(y)
+        slack = 2 * EPS64 * np.abs(y[1:]) if (fam == "lognormal" and impl.startswith("re.")) else 0.0
+        _note((fam, "dense-decreasing-steps", impl), np.array([float((dy < -slack).sum())]))
+        if np.any(dy < -slack):
+            i = int(np.argmin(dy + slack))
+            return (f"extreme {fam}/{impl} {par}: not monotone on a dense grid of {DENSE_N} points from x={xd[0]!r} (spacing "
+                    f"{xd[1]-xd[0]:.3e}): T({xd[i]!r})={y[i]!r} > T({xd[i+1]!r})={y[i+1]!r}; {int((dy < -slack).sum())} decreasing steps",
+                    dict(fam=fam, impl=impl, kind="extreme-dense-monotone"))
     return None
 
 
